@@ -407,7 +407,7 @@ def expanded_named(schema_rules, items, by_id_named):
     return s
 
 
-def gen_schema(rng: random.Random, max_rules=6, signing=False, fns=True, foreign_pats=False):
+def gen_schema(rng: random.Random, max_rules=6, signing=False, fns=True, foreign_pats=False, eq_type_pat_args=False):
     """grammar-based generator.  Levels guarantee an acyclic reference graph of depth <= 3.
     signing=True adds an acyclic signing relation (signers only among rules with a larger index-level)."""
     nlits = rng.choice([2, 2, 3, 3, 4])
@@ -487,6 +487,8 @@ def gen_schema(rng: random.Random, max_rules=6, signing=False, fns=True, foreign
                             f = rng.choice(['$eq', '$eq_type', '$isin', '$neq'])
                             if f == '$eq_type':
                                 args = [['lit', rng.choice(lits)]]
+                                if eq_type_pat_args and value_pats and rng.random() < 0.3:
+                                    args = [['pat', rng.choice(value_pats)]]
                             elif f == '$eq' and value_pats:
                                 args = [rng.choice([['lit', rng.choice(lits)], ['pat', rng.choice(value_pats)]])
                                         for _a in range(rng.choice([1, 1, 2]))]
@@ -910,3 +912,13 @@ def static_errors(schema) -> list[str]:
     if rule_sign_cycle(schema):
         errs.append('cyclic-signing')
     return errs
+
+
+def has_eq_type_pattern_arg(schema) -> bool:
+    for r in schema['rules']:
+        for cs in r['cons']:
+            for _p, opts in cs:
+                for o in opts:
+                    if o[0] == 'fn' and o[1] == '$eq_type' and any(a[0] == 'pat' for a in o[2]):
+                        return True
+    return False
